@@ -35,6 +35,8 @@ var stubPkgs = []string{
 	"github.com/rs/zerolog",
 	"github.com/dadrus/heimdall/internal/accesscontext",
 	"go.opentelemetry.io/",
+	"go.uber.org/fx",
+	"go.uber.org/dig",
 	"log",
 	"log/slog",
 	"runtime/debug",
@@ -277,5 +279,6 @@ func buildIntrinsics() map[string]intrinsic {
 	addReflectIntrinsics(t)
 	addStubIntrinsics(t)
 	addHashIntrinsics(t)
+	addNetIntrinsics(t)
 	return t
 }
